@@ -23,6 +23,12 @@ type Tracker struct {
 	LiveBytes  int
 	PeakLive   int
 	stacks     bool
+	// MovePointer: when a buffer has to move to a bigger array, Append / AppendString / Realloc hand back a NEW
+	// pointer object and leave the old one looking at the retired (poisoned) array - what the size-aligned
+	// allocator of the library does. A caller that ignores the returned pointer then reads poison and is
+	// reported (use after free) on its next operation. Default: the pointer object is kept (like the pooled
+	// allocator).
+	MovePointer bool
 }
 
 type trec struct {
@@ -67,8 +73,8 @@ func (t *Tracker) newArr(size, capHint int) []byte {
 	if c < size {
 		c = size
 	}
-	if c < 64 {
-		c = 64
+	if floor := t.minCap(); c < floor {
+		c = floor
 	}
 	arr := make([]byte, c)
 	for i := range arr {
@@ -82,6 +88,14 @@ func (t *Tracker) newArr(size, capHint int) []byte {
 		t.PeakLive = t.LiveBytes
 	}
 	return arr[:size]
+}
+
+// minCap: no spare capacity in pointer-moving mode, so that every append that adds something moves the buffer
+func (t *Tracker) minCap() int {
+	if t.MovePointer {
+		return 1
+	}
+	return 64
 }
 
 func caller() string {
@@ -119,7 +133,7 @@ func (t *Tracker) Malloc(size int) *[]byte {
 	return &b
 }
 
-func (t *Tracker) grow(pbuf *[]byte, newLen int, what string) {
+func (t *Tracker) grow(pbuf *[]byte, newLen int, what string) *[]byte {
 	// caller holds the lock; the buffer needs a bigger array
 	r := t.find(*pbuf)
 	if newLen > t.PeakReq {
@@ -137,7 +151,14 @@ func (t *Tracker) grow(pbuf *[]byte, newLen int, what string) {
 		r.freeBy = what + " (moved) at " + caller()
 		t.LiveBytes -= len(r.arr)
 	}
+	if t.MovePointer {
+		// the old pointer object keeps looking at the retired array
+		np := new([]byte)
+		*np = nb
+		return np
+	}
 	*pbuf = nb
+	return pbuf
 }
 
 func (t *Tracker) checkLive(pbuf *[]byte, op string) bool {
@@ -161,10 +182,7 @@ func (t *Tracker) Realloc(pbuf *[]byte, size int) *[]byte {
 		*pbuf = (*pbuf)[:size]
 		return pbuf
 	}
-	old := len(*pbuf)
-	t.grow(pbuf, size, "Realloc")
-	_ = old
-	return pbuf
+	return t.grow(pbuf, size, "Realloc")
 }
 
 func (t *Tracker) Append(pbuf *[]byte, more ...byte) *[]byte {
@@ -181,9 +199,9 @@ func (t *Tracker) Append(pbuf *[]byte, more ...byte) *[]byte {
 		copy((*pbuf)[n:], more)
 		return pbuf
 	}
-	t.grow(pbuf, n+len(more), "Append")
-	copy((*pbuf)[n:], more)
-	return pbuf
+	np := t.grow(pbuf, n+len(more), "Append")
+	copy((*np)[n:], more)
+	return np
 }
 
 func (t *Tracker) AppendString(pbuf *[]byte, more string) *[]byte {
@@ -200,9 +218,9 @@ func (t *Tracker) AppendString(pbuf *[]byte, more string) *[]byte {
 		copy((*pbuf)[n:], more)
 		return pbuf
 	}
-	t.grow(pbuf, n+len(more), "AppendString")
-	copy((*pbuf)[n:], more)
-	return pbuf
+	np := t.grow(pbuf, n+len(more), "AppendString")
+	copy((*np)[n:], more)
+	return np
 }
 
 func (t *Tracker) Free(pbuf *[]byte) {
